@@ -162,6 +162,31 @@ func runBtTrace(args []string) {
 			probeNow(fmt.Sprintf("same generation again after overflow %d", wdone+1))
 		}
 	}
+	// History "limit" (C20): the small backtracker (128 K entries) on a fresh state, inputs growing up to the longest it accepts:
+	// every (re)allocation is logged with the capacity it produced, which Trace_Backtrack bounds by the cap.
+	for _, p := range []string{"ab", "a[bc]+d"} {
+		re, _ := syntax.Parse(p, syntax.Perl)
+		n, cerr := nfa.NewDefaultCompiler().CompileRegexp(re)
+		if cerr != nil {
+			continue
+		}
+		bt := nfa.NewBoundedBacktrackerSmall(n)
+		st := nfa.NewBacktrackerState()
+		emit(&btEv{Ev: "new"})
+		maxLen := bt.MaxVisitedSize()/n.States() - 2
+		for _, frac := range []int{30, 55, 70, 85, 100} {
+			l := maxLen * frac / 100
+			for !bt.CanHandle(l) && l > 0 {
+				l--
+			}
+			hay := make([]byte, l)
+			for i := range hay {
+				hay[i] = 'z'
+			}
+			bt.SearchAtWithState(hay, 0, st)
+			calls++
+		}
+	}
 	w.Flush()
 	rep.Add(*npat, probes, calls, probes, "")
 	rep.Extra["events"] = events
